@@ -70,6 +70,10 @@ CLAIMED = {
    text="for every (document, settings, history) case enumerated by TLC (MC_C01) the real generator is run in several fresh processes (fresh hash seeds) on several encodings of the same document (object key order sorted / reversed / rotated, compact / spaced text) and twice on one type space; TLC validates the recorded digests against the C12 contract (all runs of a case equal, re-rendering identical)",
    note="hash-seed dependence is sampled by fresh processes (3 quick / 6 thorough per case), not enumerated; trusted: TLC, vdrive, 64-bit digest",
    ref="DESIGN.md 6 C12"),
+ "C08": dict(
+   text="TLC explores a name-growing machine over a representative alphabet (all strings up to length 2, thorough 3; the Rust keyword list in three casings; all pairs up to the pair bound plus a pool of case/separator variants); each name (pair) is used as property name, enumerated value and definition key in a document ingested by the real typify, rendered, parsed with syn, compiled and executed on an instance keyed by the original names; TLC validates the recorded events: rejected at add time, or valid distinct identifiers (parse + compile + no duplicate in the inventory), wire names equal to the original names, and an unchanged round trip",
+   note="bounded: alphabet of 15 representative characters, length <= 2/3; trusted: TLC, syn, rustc, serde, vdrive",
+   ref="DESIGN.md 6 C08"),
 }
 NA_REASON = {}
 DEFAULT_NA = "check under construction in this session (DESIGN.md 11); not yet claimed"
